@@ -17,7 +17,7 @@ def rebuild_for_replay(rec):
 
 
 def run(chk):
-    per = chk.pick(250, 6300)          # cases PER SHARD: quick ~4000 histories per class, thorough ~1e5
+    per = chk.pick(250, 25000)          # cases PER SHARD: quick ~4000 histories per class, thorough ~1e5
     for label, ustr in (('str', False), ('ustr', True)):
         chk.run(label, build(ustr), per)
     chk.rule = ('case < %d: one cell (base text in {never-filled, "", 1, 2, 5 chars, all blanks}) x (operation) x (route) of the exhaustive '
